@@ -21,13 +21,14 @@ type C08Case struct {
 	Patch  string   `json:"patch"`
 	Files  []string `json:"files"`
 	CLI    string   `json:"cli,omitempty"` // "", "p", "stdin"
+	Flags  []string `json:"flags,omitempty"` // further command-line flags (CLI cases)
 }
 
 func init() {
 	core.Register(&core.Property{
 		ID:    "C08",
 		Level: "model_checking",
-		Rule: "universe = (a) every sequence of <=5 (thorough <=6) lines over 16 line shapes (headers good/bad, '#', blank, metavariable declarations good/bad, -/+/context lines, elision lines) with and without final newline; (b) every sequence of <=4 (thorough <=5) tokens over a 33-token alphabet as the '-' side against a fixed '+' side and vice versa; (c) every byte prefix of every patch in /repo/testdata and /repo/examples; (d) the radius-1 token neighbourhood of each of those patches (each token deleted, duplicated, swapped with its neighbour, replaced by each alphabet token); (f) the radius-1 byte neighbourhood of those patches (each byte deleted; each of 14 (thorough 31) hostile bytes incl. NUL, 0xff, CR inserted before / written over every position); (g) every real patch and 7 stress patches against every construct of the catalogue in context and against deeply nested / long sources (nesting 10..1000); (e) well-formed but ill-typed patches: every metavariable kind in every slot kind on either side with captures of every filler kind. Each runs patch.Parse and, if accepted, Apply on target files that contain every construct; a slice also through the CLI (-p and stdin). " +
+		Rule: "universe = (a) every sequence of <=5 (thorough <=6) lines over 16 line shapes (headers good/bad, '#', blank, metavariable declarations good/bad, -/+/context lines, elision lines) with and without final newline; (b) every sequence of <=4 (thorough <=5) tokens over a 33-token alphabet as the '-' side against a fixed '+' side and vice versa; (c) every byte prefix of every patch in /repo/testdata and /repo/examples; (d) the radius-1 token neighbourhood of each of those patches (each token deleted, duplicated, swapped with its neighbour, replaced by each alphabet token); (f) the radius-1 byte neighbourhood of those patches (each byte deleted; each of 14 (thorough 31) hostile bytes incl. NUL, 0xff, CR inserted before / written over every position); (g) every real patch and 7 stress patches against every construct of the catalogue in context and against deeply nested / long sources (nesting 10..1000); (h) 14 unusual file headers (empty comment lines, /**/, BOM, //line, markers) x 3 bodies x 5 flag sets through the CLI; (e) well-formed but ill-typed patches: every metavariable kind in every slot kind on either side with captures of every filler kind. Each runs patch.Parse and, if accepted, Apply on target files that contain every construct; a slice also through the CLI (-p and stdin). " +
 			"Oracle: terminates (watchdog), no panic or fatal error, and either success or an error value / non-zero exit with a diagnostic. non-trivial = the patch is accepted by patch.Parse (the engine runs)",
 		Assumptions: []string{"a case that does not return within the watchdog limit of 10 s (normal cost < 1 ms) is re-run in isolation before it is reported as a hang"},
 		Bounds: func(tier string) map[string]any {
@@ -282,6 +283,21 @@ func c08Gen(tier string, emit func(any)) {
 			emit(&C08Case{Family: "g-target-stress", Patch: p, Files: []string{t}})
 		}
 	}
+	// (h) targets with unusual headers under every flag combination (code that runs outside the per-file recovery)
+	headers := []string{"", "// Package p.\n", "// Package p does things.\n//\n// Second paragraph.\n", "/**/\n", "//\n", "/*\n*/\n", "//go:build linux\n\n", "// Code generated by x. DO NOT EDIT.\n\n", "// @generated\n",
+		"//\n// @generated\n//\n", "/* @generated\n\n*/\n", "// \t \n", "\xef\xbb\xbf// bom\n", "//line x.go:10\n"}
+	flagSets := [][]string{{"--skip-generated"}, {"--skip-generated", "--print-only"}, {"--skip-generated", "--diff", "-v"}, {"--skip-import-processing", "--print-only"}, {"-v", "--diff"}}
+	for _, h := range headers {
+		for _, body := range []string{"package p\n\nfunc f() {\n\tfoo(1)\n}\n", "package p\n\nfunc f() {\n\tother(1)\n}\n", "package p // trailing\n\n// doc\n//\nvar v = foo(2)\n"} {
+			t := h + body
+			if parses(t) != nil {
+				continue
+			}
+			for _, fs := range flagSets {
+				emit(&C08Case{Family: "h-header-flags", Patch: "@@\nvar x expression\n@@\n-foo(x)\n+bar(x)\n", Files: []string{t}, CLI: "p", Flags: fs})
+			}
+		}
+	}
 	// (e) ill-typed but well-formed
 	slots := []struct{ id, minus, plus, file string }{
 		{"selector-sel", "-foo(M)", "+bar.M", "foo(§)"},
@@ -384,6 +400,7 @@ func c08Run(env *core.Env, ci any) core.Outcome {
 			if c.CLI == "stdin" {
 				args, stdin = []string{"."}, c.Patch
 			}
+			args = append(append([]string{}, c.Flags...), args...)
 			r := sb.run(real, "t", args, stdin)
 			if r.Panic != "" {
 				return bad("cli-crash", "gopatch crashed: %s", firstWords(r.Panic, 40))
